@@ -14,6 +14,8 @@
   is decided, so the late messages are exactly the reservations that existed at that moment).
 -/
 import PV.Model.ChanCloseLemmas
+import PV.Model.FlagOnce
+import PV.Generated.ChanLock
 namespace PV.Props.C22
 open PV.Chan
 
@@ -166,5 +168,82 @@ example :
     s.wire = [.data 5, .eof, .close] ∧ s.raced = false ∧ s.linked = false ∧ dataAfterEnd s.wire = false ∧
     s.thr = [.idle .none, .idle .none, .idle .none] := by
   decide +kernel
+
+/-! ## statement granularity: the atomic regions assumed above are the regions the code really locks -/
+
+open PV.FlagOnce in
+private def FInv (s : PV.FlagOnce.St) : Prop :=
+  s.emitted = s.flag.toNat ∧ ∀ p ∈ s.thr, p = Pc.ready true ∨ p = Pc.done
+
+open PV.FlagOnce in
+private theorem fstep_inv (s : PV.FlagOnce.St) (t : Nat) (h : FInv s) : FInv (PV.FlagOnce.step s t) := by
+  obtain ⟨h1, h2⟩ := h
+  have hset : ∀ (l : List Pc) (x : Pc), (∀ p ∈ l, p = Pc.ready true ∨ p = Pc.done) → x = Pc.done →
+      ∀ p ∈ l.set t x, p = Pc.ready true ∨ p = Pc.done := by
+    intro l x hl hx p hp
+    rcases List.mem_or_eq_of_mem_set hp with h | h
+    · exact hl p h
+    · exact .inr (h.trans hx)
+  unfold PV.FlagOnce.step
+  split
+  · split
+    · exact ⟨h1, hset _ _ h2 rfl⟩
+    · rename_i hf
+      refine ⟨?_, hset _ _ h2 rfl⟩
+      have : s.flag = false := by simpa using hf
+      simp [this] at h1 ⊢; omega
+  · rename_i hr
+    have := h2 _ (List.mem_of_getElem? hr)
+    rcases this with h | h <;> cases h
+  · rename_i hr
+    have := h2 _ (List.mem_of_getElem? hr)
+    rcases this with h | h <;> cases h
+  · exact ⟨h1, h2⟩
+
+/-- **If every call site holds the lock, the flag is decided once**: whatever the number of threads and the
+    interleaving of their steps, at most one message is produced. -/
+theorem decided_once_if_all_locked (sites : List Bool) (hall : ∀ b ∈ sites, b = true) (sched : List Nat) :
+    (PV.FlagOnce.run (PV.FlagOnce.init sites) sched).emitted ≤ 1 := by
+  have h0 : FInv (PV.FlagOnce.init sites) := by
+    refine ⟨rfl, ?_⟩
+    intro p hp
+    simp only [PV.FlagOnce.init, List.mem_map] at hp
+    obtain ⟨b, hb, rfl⟩ := hp
+    exact .inl (by rw [hall b hb])
+  have : ∀ (sch : List Nat) (s : PV.FlagOnce.St), FInv s → FInv (PV.FlagOnce.run s sch) := by
+    intro sch
+    induction sch with
+    | nil => intro s h; exact h
+    | cons t ts ih => intro s h; exact ih _ (fstep_inv s t h)
+  have hf := (this sched _ h0).1
+  have := Bool.toNat_le (PV.FlagOnce.run (PV.FlagOnce.init sites) sched).flag
+  omega
+
+/-- … and one unlocked call site is enough to break it: the unlocked thread reads the flag, a locked one decides
+    and emits, the unlocked one then writes and emits again (wire: EOF … EOF). -/
+theorem unlocked_site_double_emit_witness :
+    (PV.FlagOnce.run (PV.FlagOnce.init [false, true]) [0, 1, 0]).emitted = 2 := by
+  decide
+
+/-- the decision sites of channel.py outside the constructor, as generated from its AST on this run -/
+def decisionSites : List PV.Generated.ChanLock.Site :=
+  PV.Generated.ChanLock.sites.filter fun s => s.caller != "__init__"
+
+/-- **Every place that decides EOF or CLOSE runs under `self.lock`** (calls of `_send_eof`, `_close_internal`,
+    `_set_closed`, writes of `eof_sent` / `closed`; helpers documented "you are holding the lock" count as locked
+    only if every one of their call sites is): the lock regions the model treats as atomic are the ones in the
+    source.  Re-checked against the source on every run. -/
+theorem decision_sites_locked : ∀ s ∈ decisionSites, s.effLocked = true := by
+  decide
+
+/-- hence, for any number of threads running any of those sites concurrently: at most one EOF (CLOSE) -/
+theorem eof_decided_once_at_statement_level (calls : List PV.Generated.ChanLock.Site)
+    (h : ∀ c ∈ calls, c ∈ decisionSites) (sched : List Nat) :
+    (PV.FlagOnce.run (PV.FlagOnce.init (calls.map (·.effLocked))) sched).emitted ≤ 1 := by
+  apply decided_once_if_all_locked
+  intro b hb
+  simp only [List.mem_map] at hb
+  obtain ⟨c, hc, rfl⟩ := hb
+  exact decision_sites_locked c (h c hc)
 
 end PV.Props.C22
